@@ -14,3 +14,7 @@ Definition sol_value (s : sol) (y : Q) : Q :=
   match snd s with None => fst s | Some t => fst s * tentval t y end.
 Fixpoint sols_value (l : list sol) (y : Q) : Q :=
   match l with [] => 0 | s :: r => sol_value s y + sols_value r y end.
+
+(* a tent that does not span zero (OpenType ignores the others) *)
+Definition no_straddle (t : tent) : Prop := let '(l, p, u) := t in 0 <= l \/ u <= 0.
+Fixpoint sum_fst (l : list sol) : Q := match l with [] => 0 | s :: r => fst s + sum_fst r end.
